@@ -51,6 +51,7 @@ func init() {
 			m.w.ghost = append(m.w.ghost, GhostVerify{did: did, tok: m.payloadTok(payload), ok: true})
 			return TupleVal{kid, nilIface}
 		}
+		m.w.ghost = append(m.w.ghost, GhostVerify{did: did, ok: false})
 		return TupleVal{m.in.Str(""), m.newError(m.in.Str("verify JWS failed"))}
 	})
 	reg("("+didPkg+"/types.JwsSignature).GetKid", func(m *Machine, fn *ssa.Function, a []Value) Value {
@@ -73,6 +74,35 @@ func init() {
 			return TupleVal{d, nilIface}
 		}
 		return TupleVal{m.in.Str(""), m.newError(m.in.Str("invalid kid"))}
+	})
+	// parser.Parse: did:<method>:<id>[?query][#frag] as uninterpreted components of the input
+	reg(didPkg+"/parser.Parse", func(m *Machine, fn *ssa.Function, a []Value) Value {
+		s := a[0].(*Term)
+		ok := m.in.UF("parsabledid", SBool, s)
+		dt := fn.Signature.Results().At(0).Type().(*types.Pointer).Elem()
+		if !m.branch(ok) {
+			return TupleVal{Pointer{}, m.newError(m.in.Str("invalid did"))}
+		}
+		st := under(dt).(*types.Struct)
+		f := make([]Value, st.NumFields())
+		for i := 0; i < st.NumFields(); i++ {
+			f[i] = m.zero(st.Field(i).Type())
+			switch st.Field(i).Name() {
+			case "Method":
+				meth := m.in.UF("didmethod", SString, s)
+				// the method is one of the two the chain knows, or something else
+				f[i] = meth
+			case "ID":
+				f[i] = m.in.UF("didid", SString, s)
+			case "Query":
+				f[i] = m.in.UF("didquery", SString, s)
+			case "Fragment":
+				f[i] = m.in.UF("didfragment", SString, s)
+			}
+		}
+		c := m.newCell(dt, 1, "did")
+		c.elems[0] = &StructVal{f: f}
+		return TupleVal{Pointer{cell: c}, nilIface}
 	})
 	reg("github.com/dvsekhvalnov/jose2go/base64url.Encode", func(m *Machine, fn *ssa.Function, a []Value) Value {
 		b := m.toBytes(a[0])
@@ -97,6 +127,11 @@ func init() {
 			r = m.in.Or(r, m.in.And(m.in.Eq(g.did, owner), m.deepEq(g.tok.val, cur)))
 		}
 		return r
+	})
+	// DeepEq(a, b): structural equality of two values of the same type (fork-free)
+	reg(symPkg+"DeepEq", func(m *Machine, fn *ssa.Function, a []Value) Value {
+		x, y := a[0].(*IfaceVal), a[1].(*IfaceVal)
+		return m.deepEq(x.v, y.v)
 	})
 	// VerifiedBy(did): some request was successfully verified for did on this path
 	reg(symPkg+"VerifiedBy", func(m *Machine, fn *ssa.Function, a []Value) Value {
